@@ -140,6 +140,7 @@ CLAIMS["C16"] = (
 # Rules added after the third seeding round and the triage of what the seeding
 # sub-agents reported about the unchanged tree; appended to the level text.
 ADDENDA = {
+    "C04": " Also: the index of a range over a sub-slice s[a:] is never used to index s itself (R04.14).",
     "C01": " Also: the CSV writer sends a field's text out whole only on the edge where fieldNeedsQuotes is false, and otherwise in pieces cut at the next special character (R01.3f).",
     "C03": " Also: no in-place alteration reaches a value that is neither fresh nor the function's own parameter, with no frozen exception left for the indexed-assignment and json-parse sites (the analysis sees that a value is known to be a collection, or a merge of fresh values and known collections); indexed assignment installs no package-level singleton into a slot it then converts in place (R03.6).",
     "C05": " Also: the verbs do not consult the reader's NR/FNR other than for messages (R05.10); a value the verb keeps in its own state enters a record only as a copy (R05.11); a function given both a handle and the decompression flag hands the handle back unwrapped only where every decompressing value of the flag is excluded (R05.12).",
